@@ -130,8 +130,7 @@ theorem toNumber_toF (rnd : Rat → Rat) (x : Rat) (hx : rnd x = x) : (toNumber 
     rw [← h.1.1, hx]
   · simp [h, WNum.toF]
 
-theorem whereEq_toNumber (rnd : Rat → Rat) (x y : Rat) (hx : rnd x = x)
-    (hz : ¬ (isI64b x = false ∧ y = 0)) :
+theorem whereEq_toNumber (rnd : Rat → Rat) (x y : Rat) (hx : rnd x = x) :
     whereEq rnd (toNumber x) (toNumber y) = decide (x = y) := by
   rw [toNumber_eq x, toNumber_eq y]
   by_cases h1 : isI64b x = true <;> by_cases h2 : isI64b y = true
@@ -146,33 +145,20 @@ theorem whereEq_toNumber (rnd : Rat → Rat) (x y : Rat) (hx : rnd x = x)
   · simp [h1, h2, whereEq]
     simp at h1
     simp [isI64b] at h2
-    constructor
-    · intro h
-      -- y.floor = 0 and y = y.floor, so y = 0: excluded
-      exfalso; apply hz; refine ⟨h1, ?_⟩
-      rw [h2.1.1, h]; rfl
-    · intro h
-      -- x = y would make x an int64
-      exfalso
-      have : isI64b x = true := by
-        simp [isI64b]; rw [h]; exact ⟨⟨h2.1.1, h2.1.2⟩, h2.2⟩
-      simp [h1] at this
+    intro h
+    -- x = y would make x an int64
+    have : isI64b x = true := by
+      simp [isI64b]; rw [h]; exact ⟨⟨h2.1.1, h2.1.2⟩, h2.2⟩
+    simp [h1] at this
   · simp [h1, h2, whereEq]
 
 /-- The guard under which the where stage computes the comparison by value: the field integer and an integer
-literal survive `float64(·)` unchanged, and `=`/`!=` does not pair a float that is not an int64 with the literal 0
-(the `ConvertToSameType` defect). -/
-def whereGuard (rnd : Rat → Rat) (v : SVal) (op : Op) (t : NumText) : Bool :=
+literal survive `float64(·)` unchanged (true for |n| ≤ 2^53). -/
+def whereGuard (rnd : Rat → Rat) (v : SVal) (_op : Op) (t : NumText) : Bool :=
   decide (litVal rnd t = rnd t.val) &&
   (match v with
     | .int i => decide (rnd (i : Rat) = (i : Rat))
     | .uint n => decide (rnd (n : Rat) = (n : Rat))
-    | _ => true) &&
-  (match op with
-    | .eq | .ne =>
-      (match fieldFloat rnd v with
-        | some lf => !(!isI64b lf && decide (rnd t.val = 0))
-        | none => true)
     | _ => true)
 
 theorem where_eq_spec (rnd : Rat → Rat) (hr : RndOk rnd) (v : SVal) (hv : v.wf) (op : Op) (t : NumText) (ht : t.wf)
@@ -182,22 +168,18 @@ theorem where_eq_spec (rnd : Rat → Rat) (hr : RndOk rnd) (v : SVal) (hv : v.wf
   have hval : v.num? = some a ∧ rnd a = a := by
     unfold SVal.wf SVal.wfb at hv
     cases v <;> simp [fieldFloat] at hf <;> simp [whereGuard] at hg
-    · rename_i i; subst hf; simp [SVal.num?, hg.1.2]
-    · rename_i n; subst hf; simp [SVal.num?, hg.1.2]
+    · rename_i i; subst hf; simp [SVal.num?, hg.2]
+    · rename_i n; subst hf; simp [SVal.num?, hg.2]
     · rename_i b; subst hf; simp [SVal.num?]; exact hr.fix64 b hv
   have hl : litVal rnd t = rnd t.val := by
-    simp [whereGuard] at hg; exact hg.1.1
+    simp [whereGuard] at hg; exact hg.1
   rw [specCmp_num rnd v op t ht a hval.1, hl]
   have hy : rnd (rnd t.val) = rnd t.val := hr.idem _
-  unfold whereCmp
+  unfold whereCmp whereCmpWith
   simp only [hf]
-  have hz : op = .eq ∨ op = .ne → ¬ (isI64b a = false ∧ rnd t.val = 0) := by
-    intro ho
-    simp [whereGuard, hf] at hg
-    rcases ho with ho | ho <;> simp [ho] at hg <;> intro hc <;> have := hg.2 <;> simp [hc.1] at this <;> first | exact this hc.2 | skip
   cases op <;> simp [cmpQ, toNumber_toF rnd a hval.2, toNumber_toF rnd _ hy]
-  · exact whereEq_toNumber rnd a _ hval.2 (hz (Or.inl rfl))
-  · rw [whereEq_toNumber rnd a _ hval.2 (hz (Or.inr rfl))]
+  · exact whereEq_toNumber rnd a _ hval.2
+  · rw [whereEq_toNumber rnd a _ hval.2]
 
 /-! ### strings -/
 
